@@ -346,8 +346,12 @@ func (r *Resolver) onSetOrList(g, tg *Scope, name string, t *parser.Type, v *par
 	switch v.Type {
 	case parser.ConstType_ConstList:
 		elemName := "element of " + name
+		eg, ct, err := r.derefType(tg, t)
+		if err != nil {
+			return "", err
+		}
 		for _, elem := range v.TypedValue.GetList() {
-			str, err := r.resolveConst(g, tg, elemName, t.ValueType, elem)
+			str, err := r.resolveConst(g, eg, elemName, ct.ValueType, elem)
 			if err != nil {
 				return "", err
 			}
@@ -377,14 +381,18 @@ func (r *Resolver) onMap(g, tg *Scope, name string, t *parser.Type, v *parser.Co
 	var kvs []string
 	switch v.Type {
 	case parser.ConstType_ConstMap:
+		eg, ct, err := r.derefType(tg, t)
+		if err != nil {
+			return "", err
+		}
 		for _, mcv := range v.TypedValue.Map {
 			keyName := "key of " + name
-			key, err := r.resolveConst(g, tg, keyName, r.bin2str(t.KeyType), mcv.Key)
+			key, err := r.resolveConst(g, eg, keyName, r.bin2str(ct.KeyType), mcv.Key)
 			if err != nil {
 				return "", err
 			}
 			valName := "value of " + name
-			val, err := r.resolveConst(g, tg, valName, t.ValueType, mcv.Value)
+			val, err := r.resolveConst(g, eg, valName, ct.ValueType, mcv.Value)
 			if err != nil {
 				return "", err
 			}
@@ -496,6 +504,23 @@ func (r *Resolver) getStructLike(g *Scope, t *parser.Type) (f *Scope, s *parser.
 		return nil, nil, err
 	}
 	return
+}
+
+// derefType returns t with typedefs dereferenced and the scope the result belongs to.
+// A typedef of a container has no KeyType/ValueType of its own.
+func (r *Resolver) derefType(g *Scope, t *parser.Type) (*Scope, *parser.Type, error) {
+	ast, x, err := semantic.Deref(g.ast, t)
+	if err != nil {
+		return nil, nil, err
+	}
+	if ast == g.ast {
+		return g, x, nil
+	}
+	f := r.util.scopeCache[ast]
+	if f == nil {
+		return nil, nil, fmt.Errorf("%q not build", ast.Filename)
+	}
+	return f, x, nil
 }
 
 func (r *Resolver) bin2str(t *parser.Type) *parser.Type {
